@@ -45,7 +45,7 @@ func keccak(b []byte) []byte {
 }
 
 // Shapes lists the source shapes built for every seed, small ones first.
-var Shapes = []string{"t_tiny", "t_chain", "t_shared", "t_embed", "s_small", "s_shared", "s_deleg", "v_trie", "t_rand", "s_rand"}
+var Shapes = []string{"t_tiny", "t_chain", "t_shared", "t_embed", "s_store", "s_small", "s_shared", "s_deleg", "v_trie", "t_rand", "s_rand"}
 
 func big40(tag byte, r *rand.Rand) []byte {
 	b := make([]byte, 40)
@@ -127,6 +127,10 @@ func buildState(shape string, r *rand.Rand) (*youdb.MemDatabase, common.Hash, co
 		return v
 	}
 	switch shape {
+	case "s_store": // one plain account; one account with storage but NO code
+		st.AddBalance(addr(1), big.NewInt(int64(1+r.Intn(1000))))
+		st.AddBalance(addr(2), big.NewInt(5))
+		st.SetState(addr(2), slot(1), word(r))
 	case "s_small": // one plain account; one contract with code and one storage slot
 		st.AddBalance(addr(1), big.NewInt(int64(1+r.Intn(1000))))
 		st.AddBalance(addr(2), big.NewInt(7))
